@@ -37,8 +37,30 @@ fail is the source line):
     ('expr', e, line)
   patterns
     ('pid', name) ('ptuple', [patterns]) ('pint', value) ('pwild',)
+    ('pctor', [path segs], [patterns])   Some(x) / Ok(()) / Err(e) / Enum::Variant(x)
+    ('ppath', [path segs])               None / Enum::Variant
+    ('pstruct', [path segs], [(field, pattern)], has_rest)
+  additional expressions (felt-sx executor only)
+    ('while', cond, block, line)  ('iflet', pattern, expr, then_block, else_block|None, line)
+    ('closure', [patterns], body_expr, line)  ('array', [items], line)  ('repeat', item, count, line)
+    ('continue', line)
+  cfg predicates: ('feature', name) ('any', [..]) ('all', [..]) ('not', p) ('flag', name)
 """
 import re
+
+
+class N(tuple):
+    """AST node that can carry extra attributes without changing its tuple shape:
+         .cfg   cfg predicate AST of the `#[cfg(..)]` attributes in front of a statement (None = unconditional)
+         .semi  (expression statements) True when the statement ended with ';'
+         .ty    (let statements) type annotation text, or None
+         .turbofish  (method calls / paths) text of the `::<..>` generic arguments, or None
+    The older executor (symex.Interp) ignores the attributes."""
+    cfg = None
+    semi = True
+    ty = None
+    turbofish = None
+
 
 class Unsupported(Exception):
     def __init__(self, file, line, msg):
@@ -98,6 +120,9 @@ class FnItem:
         self.line, self.file, self.has_self, self.ret = line, file, has_self, ret
         self.generics = generics
         self.owner = None        # impl type name, if any
+        self.cfg = None          # cfg predicate of the item (and of the enclosing impl / mod)
+        self.trait = None
+        self.prefix = ""
     @property
     def body(self):
         if self._body is None:
@@ -119,12 +144,19 @@ class Module:
         self.assoc_consts = {}   # (owner, trait|None, name) -> expr
         self.struct_fields = {}  # struct name -> [field names]
         self.struct_field_types = {}  # struct name -> {field: type text}
+        self.tuple_structs = {}  # tuple struct name -> payload type text
+        self.enums = {}          # enum name -> {variant: info}  (see Parser.enum_variants)
+        self.assoc_types = {}    # (owner, name) -> type text
+        self.impls = []          # [{"trait","trait_text","type","type_text","fns","cfg","types"}]
+        self.all_fns = []        # every FnItem of the file, in source order
 
 class Parser:
     def __init__(self, src, fname):
         self.fname = fname
         self.toks = tokenize(src, fname)
         self.i = 0
+        self.cur_impl = None
+        self.last_from_attr = None
 
     # ---- token helpers
     @property
@@ -172,12 +204,49 @@ class Parser:
             self.i += 1
 
     def skip_attrs(self):
+        """skip attributes; returns the conjunction of the `#[cfg(..)]` predicates met (None if there is none)"""
+        preds = []
         while self.at_op("#"):
             self.i += 1
             self.eat("!")
             if not self.at_op("["):
                 self.fail("malformed attribute")
-            self.skip_balanced()
+            if self.peek().kind == "id" and self.peek().val == "cfg" and self.peek(2).kind == "op" and self.peek(2).val == "(":
+                self.i += 2          # at '('
+                self.i += 1
+                preds.append(self.cfg_pred())
+                self.expect(")")
+                self.expect("]")
+            else:
+                if self.peek().kind == "id" and self.peek().val == "from":
+                    self.last_from_attr = self.i
+                self.skip_balanced()
+        if not preds:
+            return None
+        return preds[0] if len(preds) == 1 else ("all", preds)
+
+    def cfg_pred(self):
+        name = self.ident()
+        if name in ("any", "all", "not"):
+            self.expect("(")
+            items = []
+            while not self.at_op(")"):
+                items.append(self.cfg_pred())
+                if not self.eat(","):
+                    break
+            self.expect(")")
+            if name == "not":
+                if len(items) != 1:
+                    self.fail("cfg(not(..)) takes one predicate")
+                return ("not", items[0])
+            return (name, items)
+        if self.eat("="):
+            if self.t.kind != "str":
+                self.fail("cfg value must be a string")
+            v = self.t.val
+            self.i += 1
+            return (name, v) if name != "feature" else ("feature", v)
+        return ("flag", name)
 
     def skip_generics(self):
         """Skip <...> (angle brackets nest; '->' is a single token so no confusion)."""
@@ -233,9 +302,11 @@ class Parser:
         self.parse_items(mod, prefix="", owner=None, trait=None, until_eof=True)
         return mod
 
-    def parse_items(self, mod, prefix, owner, trait, until_eof=False):
+    def parse_items(self, mod, prefix, owner, trait, until_eof=False, cfg_outer=None):
         while True:
-            self.skip_attrs()
+            cfg = self.skip_attrs()
+            if cfg_outer is not None:
+                cfg = cfg_outer if cfg is None else ("all", [cfg_outer, cfg])
             if self.t.kind == "eof":
                 if until_eof:
                     return
@@ -275,33 +346,47 @@ class Parser:
                 f = self.parse_fn()
                 if f is not None:
                     f.owner = owner
+                    f.cfg = cfg
+                    f.trait = trait
+                    f.prefix = prefix
                     if owner is not None:
                         mod.methods[(owner, f.name)] = f
+                        if self.cur_impl is not None:
+                            self.cur_impl["fns"][f.name] = f
                     else:
                         mod.fns[prefix + f.name] = f
+                    mod.all_fns.append(f)
             elif self.at_id("impl"):
                 self.i += 1
                 self.skip_generics()
                 first = self.type_text(["{", "for"])
                 tr = None
+                tr_text = None
                 if self.eat("for"):
                     tr = first.split("<")[0].strip().split(" :: ")[-1].strip()
+                    tr_text = first
                     ty = self.type_text(["{"])
                 else:
                     ty = first
                 if self.at_id("where"):
                     while not self.at_op("{"):
                         self.i += 1
+                ty_text = ty
                 ty = ty.split("<")[0].strip().split(" :: ")[-1].strip()
                 self.expect("{")
-                self.parse_items(mod, prefix, owner=ty, trait=tr)
+                save_impl = self.cur_impl
+                self.cur_impl = {"trait": tr, "trait_text": tr_text, "type": ty, "type_text": ty_text, "fns": {}, "cfg": cfg,
+                                 "types": {}}
+                mod.impls.append(self.cur_impl)
+                self.parse_items(mod, prefix, owner=ty, trait=tr, cfg_outer=cfg)
+                self.cur_impl = save_impl
             elif self.at_id("mod"):
                 self.i += 1
                 name = self.ident()
                 if self.eat(";"):
                     continue
                 self.expect("{")
-                self.parse_items(mod, prefix + name + "::", owner=None, trait=None)
+                self.parse_items(mod, prefix + name + "::", owner=None, trait=None, cfg_outer=cfg)
             elif self.at_id("struct"):
                 self.i += 1
                 name = self.ident()
@@ -311,13 +396,68 @@ class Parser:
                     mod.struct_fields[name] = [p[0] for p in pairs]
                     mod.struct_field_types[name] = dict(pairs)
                 elif self.at_op("("):
+                    start = self.i
                     self.skip_balanced()
+                    mod.tuple_structs[name] = " ".join(str(x.val) for x in self.toks[start + 1:self.i - 1])
                     self.eat(";")
                 else:
                     self.eat(";")
+            elif self.at_id("enum"):
+                self.i += 1
+                name = self.ident()
+                self.skip_generics()
+                if self.at_op("{"):
+                    mod.enums[prefix + name] = self.enum_variants()
+                else:
+                    self.skip_item()
+            elif self.at_id("type") and owner is not None:
+                self.i += 1
+                name = self.ident()
+                if self.eat("="):
+                    ty = self.type_text([";"])
+                    if self.cur_impl is not None:
+                        self.cur_impl["types"][name] = ty
+                    mod.assoc_types[(owner, name)] = ty
+                self.eat(";")
             else:
-                # use / enum / trait / macro_rules / type / static / extern: skip the item
+                # use / trait / macro_rules / type / static / extern: skip the item
                 self.skip_item()
+
+    def enum_variants(self):
+        """{variant: {"kind": unit|tuple|struct, "fields": [...], "from": bool, "types": [...]}} (declaration order kept)"""
+        out = {}
+        self.expect("{")
+        while not self.at_op("}"):
+            self.last_from_attr = None
+            start = self.i
+            self.skip_attrs()
+            has_from_outer = False
+            vname = self.ident()
+            info = {"kind": "unit", "fields": [], "from": False, "types": []}
+            if self.at_op("("):
+                info["kind"] = "tuple"
+                self.i += 1
+                while not self.at_op(")"):
+                    self.last_from_attr = None
+                    self.skip_attrs()
+                    if self.last_from_attr is not None:
+                        info["from"] = True
+                    info["types"].append(self.type_text([","]))
+                    if not self.eat(","):
+                        break
+                self.expect(")")
+            elif self.at_op("{"):
+                info["kind"] = "struct"
+                for fname, fty in self.struct_field_names():
+                    info["fields"].append(fname)
+                    info["types"].append(fty)
+            if self.eat("="):
+                self.expr()
+            out[vname] = info
+            if not self.eat(","):
+                break
+        self.expect("}")
+        return out
 
     def struct_field_names(self):
         names = []
@@ -400,46 +540,60 @@ class Parser:
         return FnItem(name, params, self, body_pos, line, self.fname, has_self, ret, generics)
 
     # ---- statements
+    BLOCKLIKE = ("if", "match", "loop", "for", "while")
+
     def block(self):
         line = self.t.line
         self.expect("{")
         stmts, tail = [], None
+        def mk(node, cfg, semi=True):
+            n = N(node)
+            n.cfg, n.semi = cfg, semi
+            return n
         while not self.at_op("}"):
-            self.skip_attrs()
+            cfg = self.skip_attrs()
             if self.eat(";"):
                 continue
             if self.at_id("let"):
-                stmts.append(self.let_stmt())
+                st = self.let_stmt()
+                st.cfg = cfg
+                stmts.append(st)
                 continue
             if self.at_id("use"):
                 self.skip_item()
                 continue
             sline = self.t.line
-            if (self.t.kind == "id" and self.t.val in ("if", "match", "loop", "for")) or self.at_op("{"):
+            if (self.t.kind == "id" and self.t.val in self.BLOCKLIKE) or self.at_op("{"):
                 # block-like expression in statement position: it ends the statement (no postfix / binary continuation)
                 e = self.primary(False)
-                if self.at_op("}"):
+                if self.at_op("}") and cfg is None:
                     tail = e
+                elif self.at_op("}"):
+                    # conditional tail `#[cfg(..)] { .. }`: kept as a statement without ';' (the executor picks the active one)
+                    stmts.append(mk(("expr", e, sline), cfg, semi=False))
                 else:
-                    self.eat(";")
-                    stmts.append(("expr", e, sline))
+                    semi = self.eat(";")
+                    stmts.append(mk(("expr", e, sline), cfg, semi=semi))
                 continue
             e = self.expr(stmt_pos=True)
-            if self.t.kind == "op" and self.t.val in ("=", "+=", "-=", "*="):
+            if self.t.kind == "op" and self.t.val in ("=", "+=", "-=", "*=", "/="):
                 op = self.t.val
                 self.i += 1
                 rhs = self.expr()
                 # a compound assignment without ';' directly before '}' is still a statement
                 if not self.eat(";") and not self.at_op("}"):
                     self.fail("expected ';' after assignment")
-                stmts.append(("assign", op, e, rhs, sline))
+                stmts.append(mk(("assign", op, e, rhs, sline), cfg))
                 continue
             if self.eat(";"):
-                stmts.append(("expr", e, sline))
+                stmts.append(mk(("expr", e, sline), cfg))
             elif self.at_op("}"):
-                tail = e
-            elif e[0] in ("if", "match", "block", "loop", "for"):
-                stmts.append(("expr", e, sline))      # block-like expression statement
+                if cfg is None:
+                    tail = e
+                else:
+                    stmts.append(mk(("expr", e, sline), cfg, semi=False))
+            elif e[0] in ("if", "match", "block", "loop", "for", "while", "iflet"):
+                stmts.append(mk(("expr", e, sline), cfg, semi=False))      # block-like expression statement
             else:
                 self.fail("expected ';' or '}' after expression, found %r" % (self.t.val,))
         self.expect("}")
@@ -453,13 +607,16 @@ class Parser:
         if pat[0] == "pid" and pat[1] == "mut":
             mutable = True
             pat = self.pattern()
+        ty = None
         if self.eat(":"):
-            self.type_text(["=", ";"])
+            ty = self.type_text(["=", ";"])
         init = None
         if self.eat("="):
             init = self.expr()
         self.expect(";")
-        return ("let", pat, mutable, init, line)
+        n = N(("let", pat, mutable, init, line))
+        n.ty = ty
+        return n
 
     def pattern(self):
         if self.at_op("("):
@@ -473,6 +630,10 @@ class Parser:
             return ("ptuple", ps)
         if self.at_op("&"):
             self.i += 1
+            self.eat("mut")
+            return self.pattern()
+        if self.t.kind == "op" and self.t.val == "&&":
+            self.i += 1
             return self.pattern()
         if self.t.kind == "num":
             v = self.t.val
@@ -484,8 +645,46 @@ class Parser:
         if self.at_id("mut"):
             self.i += 1
             return ("pid", "mut")
+        if self.at_id("ref"):
+            self.i += 1
+            self.eat("mut")
+            return self.pattern()
         if self.t.kind == "id":
-            return ("pid", self.ident())
+            segs = [self.ident()]
+            while self.at_op("::"):
+                self.i += 1
+                if self.at_op("<"):
+                    self.skip_generics()
+                    continue
+                segs.append(self.ident())
+            if self.at_op("("):
+                self.i += 1
+                ps = []
+                while not self.at_op(")"):
+                    ps.append(self.pattern())
+                    if not self.eat(","):
+                        break
+                self.expect(")")
+                return ("pctor", segs, ps)
+            if self.at_op("{") and segs[-1][:1].isupper():
+                self.i += 1
+                fields, rest = [], False
+                while not self.at_op("}"):
+                    if self.eat(".."):
+                        rest = True
+                        break
+                    fname = self.ident()
+                    if self.eat(":"):
+                        fields.append((fname, self.pattern()))
+                    else:
+                        fields.append((fname, ("pid", fname)))
+                    if not self.eat(","):
+                        break
+                self.expect("}")
+                return ("pstruct", segs, fields, rest)
+            if len(segs) > 1 or segs[0] == "None":
+                return ("ppath", segs)
+            return ("pid", segs[0])
         self.fail("unsupported pattern starting with %r" % (self.t.val,))
 
     # ---- expressions (precedence climbing)
@@ -540,6 +739,11 @@ class Parser:
                 self.i += 1
                 op = "&mut"
             return ("un", op, self.unary(no_struct), line)
+        if self.at_op("&&"):
+            self.i += 1
+            return ("un", "&", self.unary(no_struct), line)
+        if self.at_op("|") or self.at_op("||") or (self.at_id("move") and self.peek().kind == "op" and self.peek().val in ("|", "||")):
+            return self.closure()
         e = self.postfix(self.primary(no_struct), no_struct)
         while self.at_id("as"):
             self.i += 1
@@ -547,6 +751,26 @@ class Parser:
             e = ("cast", e, ty, line)
             e = self.postfix(e, no_struct)
         return e
+
+    def closure(self):
+        line = self.t.line
+        self.eat("move")
+        params = []
+        if self.eat("||"):
+            pass
+        else:
+            self.expect("|")
+            while not self.at_op("|"):
+                params.append(self.pattern())
+                if self.eat(":"):
+                    self.type_text([",", "|"])
+                if not self.eat(","):
+                    break
+            self.expect("|")
+        if self.eat("->"):
+            self.type_text(["{"])
+        body = self.expr()
+        return ("closure", params, body, line)
 
     def args(self):
         self.expect("(")
@@ -568,11 +792,13 @@ class Parser:
                     self.i += 1
                     continue
                 name = self.ident()
+                tf = None
                 if self.at_op("::"):
                     self.i += 1
-                    self.skip_generics()
+                    tf = self.skip_generics()
                 if self.at_op("("):
-                    e = ("mcall", e, name, self.args(), line)
+                    e = N(("mcall", e, name, self.args(), line))
+                    e.turbofish = tf
                 else:
                     e = ("field", e, name, line)
             elif self.at_op("["):
@@ -613,6 +839,19 @@ class Parser:
             return ("tuple", items, line)
         if t.kind == "op" and t.val == "{":
             return self.block()
+        if t.kind == "op" and t.val == "[":
+            self.i += 1
+            items = []
+            while not self.at_op("]"):
+                items.append(self.expr())
+                if self.eat(";"):
+                    cnt = self.expr()
+                    self.expect("]")
+                    return ("repeat", items[0], cnt, line)
+                if not self.eat(","):
+                    break
+            self.expect("]")
+            return ("array", items, line)
         if t.kind == "op" and t.val == "<":
             # qualified path  <T as Trait>::NAME
             txt = self.skip_generics()
@@ -633,9 +872,16 @@ class Parser:
             self.expect("{")
             arms = []
             while not self.at_op("}"):
+                self.skip_attrs()
+                self.eat("|")
                 pat = self.pattern()
-                while self.eat("|"):
-                    self.fail("or-patterns are not supported")
+                if self.at_op("|"):
+                    alts = [pat]
+                    while self.eat("|"):
+                        alts.append(self.pattern())
+                    pat = ("por", alts)
+                if self.at_id("if"):
+                    self.fail("match guards are not supported")
                 self.expect("=>")
                 body = self.expr()
                 arms.append((pat, body))
@@ -654,7 +900,14 @@ class Parser:
             it = self.expr(no_struct=True)
             return ("for", pat, it, self.block(), line)
         if t.val == "while":
-            self.fail("`while` loops are not in the subset")
+            self.i += 1
+            if self.at_id("let"):
+                self.fail("`while let` is not in the subset")
+            cond = self.expr(no_struct=True)
+            return ("while", cond, self.block(), line)
+        if t.val == "continue":
+            self.i += 1
+            return ("continue", line)
         if t.val == "break":
             self.i += 1
             if self.at_op(";") or self.at_op("}") or self.at_op(","):
@@ -665,14 +918,15 @@ class Parser:
             if self.at_op(";") or self.at_op("}") or self.at_op(","):
                 return ("return", None, line)
             return ("return", self.expr(), line)
-        if t.val in ("unsafe", "async", "move", "while", "continue", "let"):
+        if t.val in ("unsafe", "async", "move", "let"):
             self.fail("`%s` is not in the subset" % t.val)
         # path, macro, struct literal
         segs = [self.ident()]
+        path_tf = None
         while self.at_op("::"):
             self.i += 1
             if self.at_op("<"):
-                self.skip_generics()
+                path_tf = self.skip_generics()
                 continue
             segs.append(self.ident())
         if self.at_op("!"):
@@ -682,8 +936,11 @@ class Parser:
                 name = segs[-1]
                 close = CLOSE[self.t.val]
                 if name in ("panic", "unreachable", "unimplemented", "todo", "println", "eprintln", "debug_assert"):
+                    msg = self.peek()
                     self.skip_balanced()
-                    return ("macro", name, [], line)
+                    n = N(("macro", name, [], line))
+                    n.ty = msg.val if msg.kind == "str" else None       # first string literal = message format
+                    return n
                 self.i += 1
                 args = []
                 while not self.at_op(close):
@@ -710,13 +967,30 @@ class Parser:
                     break
             self.expect("}")
             return ("struct", segs, fields, line)
+        if path_tf is not None:
+            n = N(("path", segs, line))
+            n.turbofish = path_tf
+            return n
         return ("path", segs, line)
 
     def if_expr(self):
         line = self.t.line
         self.expect("if")
         if self.at_id("let"):
-            self.fail("`if let` is not in the subset")
+            self.i += 1
+            pat = self.pattern()
+            self.expect("=")
+            scrut = self.expr(no_struct=True)
+            then = self.block()
+            els = None
+            if self.at_id("else"):
+                self.i += 1
+                if self.at_id("if"):
+                    e = self.if_expr()
+                    els = ("block", [], e, e[-1])
+                else:
+                    els = self.block()
+            return ("iflet", pat, scrut, then, els, line)
         cond = self.expr(no_struct=True)
         then = self.block()
         els = None
